@@ -166,7 +166,11 @@ def run_witness(binpath, w):
                 with open(f, "w", encoding="utf-8") as fh:
                     if prog.get("defs"):
                         fh.write(json.dumps({"method": "run", "input": prog["defs"].replace("SIG", sig)}) + "\n")
-                    fh.write(json.dumps({"method": "run", "input": prog["body"].replace("SIG", sig)}) + "\n")
+                    req = {"method": "run", "input": prog["body"].replace("SIG", sig)}
+                    if prog.get("with_path"):
+                        # an editor evaluating a buffer: the run names a file, whose namespace differs from the session's
+                        req["path"] = os.path.join(tmpdir, "buffer.gdn")
+                    fh.write(json.dumps(req) + "\n")
                     for _ in range(prog.get("resumes", 3)):
                         fh.write(json.dumps({"method": "run", "input": ":resume"}) + "\n")
                 p = subprocess.run([binpath, "reftest-json-session", f], capture_output=True, text=True, timeout=w.get("timeout", 60), cwd=tmpdir)
